@@ -27,6 +27,7 @@ func Run(r *core.Run) {
 		"malformed encodings: every position x 7 foreign characters, length field +-1, digest truncated at every length, appended bytes, empty, unknown/unsupported code; " +
 		"distinct = distinct (value pair class, algorithm, verdict) and distinct malformed strings; non-trivial = pairs of different texts"
 	r.Assumptions = []string{"reference multihash and JCS (ref/mh, ref/jcs) are correct", "JSON value equality decided on encoding/json-decoded values (numbers as doubles)"}
+	vals.Thorough = r.Thorough()
 	set := vals.Set()
 	vs := make([]val, len(set))
 	for i, s := range set {
